@@ -147,6 +147,8 @@ class MutationAnalysis:
                 if t.kind == "repo":
                     r = INF
                     for g in t.targets:
+                        if is_root is not None and self.returns_owned(g, is_root):
+                            r = 0
                         for idx in self.returns_alias_of(g):
                             a = self._arg_for(e, g, idx)
                             if a is not None:
@@ -349,6 +351,22 @@ class MutationAnalysis:
             self._busy.discard(key)
         self._param_summary[key] = r
         return r
+
+    def returns_owned(self, fn: FunctionInfo, is_root) -> bool:
+        """Does fn return (un-copied) a value that is_root classifies as owned?  (e.g. a lookup helper handing out
+        a node's cached metadata list)"""
+        cache = self.__dict__.setdefault("_ret_owned", {})
+        key = (fn.fullname, id(is_root))
+        if key in cache:
+            return cache[key]
+        cache[key] = False
+        rets = [r.value for r in walk_local(fn.node) if isinstance(r, ast.Return) and r.value is not None]
+        if rets:
+            saved = dict(self.probes)
+            self.analyse(fn, {}, is_root, depth=1, probes=rets)
+            cache[key] = any(self.probes.get(id(r), INF) == 0 for r in rets)
+            self.probes = saved
+        return cache[key]
 
     def returns_alias_of(self, fn: FunctionInfo) -> set[int]:
         """parameter indices whose (sub)object may be returned un-copied"""
